@@ -606,7 +606,8 @@ package table
 //@   loop 3 invariant asLen >= 0
 //@   loop 4 invariant as4Len >= 0
 //@   loop 5 invariant keepNum >= 0 && keepNum + as4Len <= asLen
-//@   loop 5 step keepNum >= 1 && header(keepNum) - keepNum == segASLen(param)
+//@   loop 5 invariant len(newParams) == __iter + 1 && __iter + 1 <= len(asParams)
+//@   loop 5 step keepNum >= 0 && header(keepNum) - keepNum <= segASLen(param) && (keepNum > 0 ==> header(keepNum) - keepNum == segASLen(param))
 //@   at-call param.GetAS()[:keepNum] requires keepNum >= 1 && segType(param) == bgp.BGP_ASPATH_ATTR_TYPE_SEQ && keepNum < segLen(param)
 //@   at-call bgp.NewPathAttributeAsPath(newIntfParams) requires as4Len <= asLen
 // "loses nothing": AS4_PATH stands for the trailing hops of AS_PATH; where the take-over from AS_PATH stops, the
